@@ -59,6 +59,7 @@ type vaCmd struct {
 	End     int      `json:"end,omitempty"`
 	Files   []string `json:"files,omitempty"`
 	Path    string   `json:"path,omitempty"`
+	Kind    string   `json:"kind,omitempty"`
 }
 
 type vaFailReader struct {
@@ -312,6 +313,22 @@ func vaRun(c *vaCmd) (res map[string]any) {
 		if err := cl.DeleteClusterLogs(context.Background(), c.Files); err != nil {
 			res["err"] = err.Error()
 		}
+	case "tmpdir_spell":
+		// re-spell this process's temporary directory (same directory, non-cleaned path)
+		cur := os.TempDir()
+		switch c.Kind {
+		case "trailing-slash":
+			os.Setenv("TMPDIR", cur+"/")
+		case "dot-segment":
+			os.Setenv("TMPDIR", filepath.Dir(cur)+"/./"+filepath.Base(cur))
+		case "double-slash":
+			os.Setenv("TMPDIR", filepath.Dir(cur)+"//"+filepath.Base(cur))
+		case "symlink":
+			l := filepath.Join(filepath.Dir(cur), "tmplink")
+			os.Symlink(cur, l)
+			os.Setenv("TMPDIR", l)
+		}
+		res["tmpdir"] = os.TempDir()
 	case "tmpdir_list":
 		// recursive listing of the process's temporary directory (relative names)
 		root := os.TempDir()
